@@ -106,8 +106,8 @@ a whole number of pages, `default`/`new_zeroed` size the buffer with `get_page_s
 theorem C17_source_shape :
     wellPlaced Gen.vmemMmapCalls = true ∧ Gen.vmemReturnsFirstMapping = true ∧ Gen.vmemAssertsPageMultiple = true ∧
     extent Gen.vmemMmapCalls = 2 ∧
-    Gen.pinRangeMax = "{#[cfg(feature='vmem')]returnsuper::vmem_helper::get_page_size_mul(capacity);#[cfg(not(feature='vmem'))]returncapacity;}" ∧
-    Gen.vmemStorageNew = "{letr=vmem_helper::new(&value);letlen=value.len();drop(unsafe{core::mem::transmute::<Box<[UnsafeSyncCell<T>]>,Box<[core::mem::MaybeUninit<UnsafeSyncCell<T>>]>>(value)});Self{inner:r,len,}}" := by
+    Gen.ctorFacts.rangeMaxVmemIsPageMultiple = true ∧
+    Gen.vmemNewFacts = { mapsSource := true, lenIsSourceLen := true, freesSourceWithoutDestroying := true } := by
   refine ⟨by decide, rfl, rfl, by decide, rfl, rfl⟩
 
 /-- Non-vacuity: a design for which all decision procedures answer `true` exists (one shared object mapped twice). -/
